@@ -157,7 +157,8 @@ Qed.
     The second query hits the cache for neither graph (different node_attrs key) and answers like a fresh engine. *)
 Definition histQ : list query := [QIso 0 0 2; QIso 1 0 2; QMaps 1 0 2; QPre 1 0 2; QIso 0 0 2].
 Definition histRun : list tok := run_from has_mono (monos_g true) gsA [eFull; eElem] histQ [].
-Example ex_history_answers : firstn 2 histRun = [tbool false; tbool true].
+(** (each answer of an isomorphic query carries its intermediate values: host index, pattern index, _pre_check's answer, deciding method) *)
+Example ex_history_answers : firstn 2 histRun = [L [tbool false; tlist tN [2; 0; 0; 0]%N]; L [tbool true; tlist tN [2; 0; 1; 1]%N]].
 Proof. vm_compute. reflexivity. Qed.
 Example ex_history : histRun = map (fun q => fst (step has_mono (monos_g true) gsA [eFull; eElem] q [])) histQ.
 Proof. apply no_history_fresh. Qed.
